@@ -153,6 +153,7 @@ func TestScale(t *testing.T) {
 				}
 			}
 		}
+		drawZPar(t, s)
 		graph.DrawOrders(t, s)
 		decide(t, s, "scale")
 	})
@@ -282,3 +283,18 @@ func enumerate(t *testing.T, n int, withRequired bool) {
 func TestExhaustive2(t *testing.T) { enumerate(t, 2, true) }
 func TestExhaustive3(t *testing.T) { enumerate(t, 3, true) }
 func TestExhaustive4(t *testing.T) { enumerate(t, 4, false) }
+
+
+// drawZPar gives every scale-family node a drawn "parent": the node is held by the qualified slice of that
+// Z type if it is registered - data-driven edges (random functional graphs: long chains, trees, big cycles)
+// on top of the family's static ring / skip / fan-in edges.
+func drawZPar(t *rapid.T, s *graph.Scenario) {
+	s.ZPar = make([]int, len(s.Z))
+	for i := range s.ZPar {
+		if rapid.IntRange(0, 3).Draw(t, "haspar") == 0 {
+			s.ZPar[i] = -1
+		} else {
+			s.ZPar[i] = s.Z[rapid.IntRange(0, len(s.Z)-1).Draw(t, "par")]
+		}
+	}
+}
